@@ -100,7 +100,7 @@ func (e *Engine) sharedAccess(st *State, fr *Frame, loc *Loc, write bool, pos st
 	in := func(list []string) bool {
 		for _, l := range list {
 			for _, f := range strings.Fields(l) {
-				if f == field {
+				if f == field || strings.HasSuffix(field, "."+f) {
 					return true
 				}
 			}
